@@ -21,7 +21,14 @@ EXTENDS ScmManifest, FiniteSets, TLC
 CONSTANTS Addrs,        \* listening addresses (<= 3)
           Reqs,         \* connection slots on the old worker (2)
           Successor,    \* TRUE: hand-over to a successor; FALSE: plain soft stop
-          Deviations    \* open known findings modelled as the code behaves (none at present)
+          Alphabet,     \* "request": the slots start in (and only move through) the stages of the REQUEST;
+                        \* "response": they start awaiting / receiving the RESPONSE and the delivery actions are
+                        \* enabled (two exhaustive configurations instead of one product: see InitSlots)
+          Deviations    \* switchable defect classes, modelled as the code would behave:
+                        \*   "QuiescedBeforeFlushed": a pass of shut_down_sessions takes a session whose response was
+                        \*   read to its end from the backend for finished although its tail is still buffered in the
+                        \*   worker (Stream::is_quiesced / Mux::shutting_down without the "nothing left to write"
+                        \*   conjuncts). No open finding uses it: it is the self-test of P_C10b (TLC must refute it).
 
 Protos == {"http", "https", "tcp", "udp"}
 FdStates == {"old", "inFlightToMaster", "master", "inFlightToNew", "newHeld", "new", "closed"}
@@ -34,9 +41,18 @@ Stages == {"none",            \* free slot
            "awaitResp",       \* request complete, backend has not answered
            "idleKeepAlive",   \* no request in flight
            "h2Open",          \* H2 stream with complete head, END_STREAM not received
-           "h2Await"}         \* H2 stream complete, backend has not answered
-HeadComplete(s) == s \in {"midBody", "awaitResp", "h2Open", "h2Await"}
-IsH2(s) == s \in {"h2Open", "h2Await"}
+           "h2Await",         \* H2 stream complete, backend has not answered
+           \* the response on its way to the client (H1 / H2 stream):
+           "respStreaming",   \* response head (and some body) forwarded, the backend is still sending (stream Linked)
+           "respTail",        \* the backend has finished (and, if it closed, was released: stream Unlinked); the rest
+                              \* of the response is buffered in the worker, waiting for the client to read
+           "h2RespStreaming",
+           "h2RespTail"}
+TailStages == {"respTail", "h2RespTail"}
+RespStages == {"respStreaming", "h2RespStreaming"} \cup TailStages
+HeadComplete(s) == s \in {"midBody", "awaitResp", "h2Open", "h2Await"} \cup RespStages
+IsH2(s) == s \in {"h2Open", "h2Await", "h2RespStreaming", "h2RespTail"}
+RespEnabled == Alphabet # "request"
 
 VARIABLES
   proto,      \* [Addrs -> Protos]
@@ -60,8 +76,13 @@ vars == <<proto, fd, sock, closedBy, manifest, oldPhase, newPhase, mpc, chan, re
 
 FreeSlot == [stage |-> "none", partial |-> FALSE, st |-> "open", why |-> "-"]
 Slot(s, p) == [stage |-> s, partial |-> p, st |-> "open", why |-> "-"]
-InitSlots == {FreeSlot, Slot("preHeaders", FALSE), Slot("preHeaders", TRUE), Slot("midBody", FALSE),
-              Slot("awaitResp", FALSE), Slot("idleKeepAlive", FALSE), Slot("h2Open", FALSE), Slot("h2Await", FALSE)}
+InitSlots ==
+  IF Alphabet = "request"
+  THEN {FreeSlot, Slot("preHeaders", FALSE), Slot("preHeaders", TRUE), Slot("midBody", FALSE),
+        Slot("awaitResp", FALSE), Slot("idleKeepAlive", FALSE), Slot("h2Open", FALSE), Slot("h2Await", FALSE)}
+  ELSE {FreeSlot, Slot("idleKeepAlive", FALSE), Slot("awaitResp", FALSE), Slot("h2Await", FALSE),
+        Slot("respStreaming", FALSE), Slot("respTail", FALSE), Slot("h2RespStreaming", FALSE),
+        Slot("h2RespTail", FALSE)}
 
 Occupied(r) == req[r].stage # "none" /\ req[r].st = "open"
 
@@ -183,17 +204,24 @@ Old_SoftStop ==
 \*   request head complete                                       -> kept (closing = true), H2: first GOAWAY
 \*   H2 and the graceful deadline elapsed                        -> forced close
 \* and when no session is left the worker answers Ok once.
-PassOn(s) ==
-  IF s.stage = "none" \/ s.st # "open" THEN s
-  ELSE IF s.stage \in {"idleKeepAlive", "preHeaders"} THEN [s EXCEPT !.st = "closed"]
-  ELSE IF IsH2(s.stage) /\ deadlinePassed THEN [s EXCEPT !.st = "cut", !.why = "deadline"]
-  ELSE s
+\*   response being delivered (backend still sending, or  -> kept until the client has everything
+\*   finished with the tail buffered in the worker)          (H2: or the graceful deadline elapsed)
+\* The result is a SET: the code has a legitimate choice for partial heads; the deviation is one more choice.
+PassOnSet(s) ==
+  IF s.stage = "none" \/ s.st # "open" THEN {s}
+  ELSE IF s.stage = "idleKeepAlive" THEN {[s EXCEPT !.st = "closed"]}
+  ELSE IF s.stage = "preHeaders" THEN (IF s.partial THEN {s} ELSE {}) \cup {[s EXCEPT !.st = "closed"]}
+  ELSE IF IsH2(s.stage) /\ deadlinePassed THEN {[s EXCEPT !.st = "cut", !.why = "deadline"]}
+  ELSE IF s.stage \in TailStages /\ "QuiescedBeforeFlushed" \in Deviations
+       \* the buffered tail is dropped: the client sees either a clean end of a short body (response delimited
+       \* by the close, or END_STREAM after less than was sent) or an abort (declared length not met)
+       THEN {[s EXCEPT !.st = "short", !.why = "stop"], [s EXCEPT !.st = "cut", !.why = "stop"]}
+  ELSE {s}
 
 Old_ShutDownSessions ==
   /\ oldPhase = "softStopping"
-  /\ \E keep \in SUBSET {r \in Reqs : Occupied(r) /\ req[r].stage = "preHeaders" /\ req[r].partial} :
-     LET after == [r \in Reqs |-> IF r \in keep THEN req[r] ELSE PassOn(req[r])]
-         left == {r \in Reqs : after[r].stage # "none" /\ after[r].st = "open"}
+  /\ \E after \in {f \in [Reqs -> UNION {PassOnSet(req[r]) : r \in Reqs}] : \A r \in Reqs : f[r] \in PassOnSet(req[r])} :
+     LET left == {r \in Reqs : after[r].stage # "none" /\ after[r].st = "open"}
      IN /\ req' = after
         /\ draining' = (draining \/ \E r \in left : IsH2(after[r].stage))
         /\ IF left = {}
@@ -243,6 +271,30 @@ Backend_Respond(r) ==
   /\ UNCHANGED <<proto, fd, sock, closedBy, manifest, oldPhase, newPhase, mpc, chan, resp, stopSent, draining,
                  deadlinePassed, acks, acceptedAfterStop>>
 
+\* Response delivery (enabled in the "response" alphabet). The worker relays what the backend sends as far as the
+\* client reads; what the client has not read yet is buffered (kawa storage, H2 frames, TLS records, socket).
+\*   Backend_SendPart : the response head and a first part of the body went through to the client
+\*   Backend_Finish   : the backend wrote the end of the response (and closed, or not); the worker has read it all:
+\*                      for the backend the exchange is over, the tail waits in the worker for the client
+\*   Client_ReadSome  : the client reads; the step that matters is the one after which it has everything
+Backend_SendPart(r) ==
+  /\ RespEnabled /\ oldPhase \in LiveOld /\ Occupied(r) /\ req[r].stage \in {"awaitResp", "h2Await"}
+  /\ req' = [req EXCEPT ![r].stage = IF req[r].stage = "awaitResp" THEN "respStreaming" ELSE "h2RespStreaming"]
+  /\ UNCHANGED <<proto, fd, sock, closedBy, manifest, oldPhase, newPhase, mpc, chan, resp, stopSent, draining,
+                 deadlinePassed, acks, acceptedAfterStop>>
+
+Backend_Finish(r) ==
+  /\ RespEnabled /\ oldPhase \in LiveOld /\ Occupied(r) /\ req[r].stage \in {"respStreaming", "h2RespStreaming"}
+  /\ req' = [req EXCEPT ![r].stage = IF req[r].stage = "respStreaming" THEN "respTail" ELSE "h2RespTail"]
+  /\ UNCHANGED <<proto, fd, sock, closedBy, manifest, oldPhase, newPhase, mpc, chan, resp, stopSent, draining,
+                 deadlinePassed, acks, acceptedAfterStop>>
+
+Client_ReadSome(r) ==
+  /\ RespEnabled /\ oldPhase \in LiveOld /\ Occupied(r) /\ req[r].stage \in TailStages
+  /\ req' = [req EXCEPT ![r] = [@ EXCEPT !.st = "done"]]
+  /\ UNCHANGED <<proto, fd, sock, closedBy, manifest, oldPhase, newPhase, mpc, chan, resp, stopSent, draining,
+                 deadlinePassed, acks, acceptedAfterStop>>
+
 Tick_Deadline ==
   /\ oldPhase = "softStopping" /\ draining /\ ~deadlinePassed
   /\ deadlinePassed' = TRUE
@@ -257,9 +309,11 @@ OldNext    == Old_ReturnListenSockets \/ Old_SoftStop \/ Old_ShutDownSessions \/
               \/ \E a \in Addrs, r \in Reqs : Old_Accept(a, r)
 EnvNext    == \E r \in Reqs : Client_SendPartialHead(r) \/ Client_SendHead(r) \/ Client_FinishBody(r)
                               \/ Client_NewRequest(r) \/ Backend_Respond(r)
+                              \/ Backend_SendPart(r) \/ Backend_Finish(r) \/ Client_ReadSome(r)
 Progress   == MasterNext \/ NewNext \/ Old_ReturnListenSockets \/ Old_SoftStop \/ Old_ShutDownSessions \/ Old_Exit
               \/ Tick_Deadline
               \/ \E r \in Reqs : Client_SendHead(r) \/ Client_FinishBody(r) \/ Backend_Respond(r)
+                              \/ Backend_Finish(r) \/ Client_ReadSome(r)
 
 Next == MasterNext \/ NewNext \/ OldNext \/ EnvNext \/ Tick_Deadline \/ Old_Die
 
@@ -274,7 +328,8 @@ TypeOK ==
   /\ proto \in [Addrs -> Protos] /\ fd \in [Addrs -> FdStates] /\ sock \in [Addrs -> Addrs]
   /\ oldPhase \in OldPhases /\ newPhase \in {"none", "starting", "running", "failed"}
   /\ mpc \in {"idle", "askedReturn", "received", "failed"}
-  /\ \A r \in Reqs : req[r].stage \in Stages /\ req[r].st \in {"open", "done", "cut", "closed"}
+  /\ \A r \in Reqs : req[r].stage \in Stages /\ req[r].st \in {"open", "done", "cut", "closed", "short"}
+                   /\ req[r].why \in {"-", "death", "deadline", "stop"}
   /\ acks \in 0..2 /\ acceptedAfterStop \in 0..8
 
 \* (a) no listener is closed by the hand-over: a listening socket only disappears with a worker that died
@@ -288,8 +343,9 @@ P_C10a_NoListenerLost ==
 HandedOver == \A a \in Addrs : fd[a] = "new" /\ sock[a] = a
 P_C10a_EndsInSuccessor == (Successor /\ oldPhase = "returned") ~> HandedOver
 
-\* (b) a request whose head was complete on the old worker is not cut, unless the graceful deadline passed
-\*     (H2 only) or the worker died
+\* (b) a request whose head was complete on the old worker is not cut, wherever it is in its life (request body,
+\*     waiting for the backend, response being delivered), unless the graceful deadline passed (H2 only) or the
+\*     worker died
 P_C10b_NoRequestCut ==
   \A r \in Reqs : (req[r].st = "cut" /\ HeadComplete(req[r].stage)) =>
                      \/ req[r].why = "death" /\ oldPhase = "dead"
@@ -297,6 +353,10 @@ P_C10b_NoRequestCut ==
 \*     and closing a connection without cutting is only done to connections with no request in flight
 P_C10b_OnlyIdleClosed ==
   \A r \in Reqs : req[r].st = "closed" => req[r].stage \in {"idleKeepAlive", "preHeaders"}
+
+\*     and a response never ends "clean but short" (completed as far as the client can tell, truncated in
+\*     fact): a response is delivered completely or aborted explicitly
+P_C10b_NoShortResponse == \A r \in Reqs : req[r].st # "short"
 
 \* (c) nothing is accepted once the stop is being processed (a fortiori after it was acknowledged)
 P_C10c_NoAcceptAfterStop == acceptedAfterStop = 0
@@ -312,6 +372,6 @@ P_C10d_StopTerminates == (oldPhase = "softStopping") ~> (oldPhase \in {"exited",
 \* evaluation error instead of a violation)
 P_C10_Manifest == manifest = manifest /\ P_C10_ManifestFits
 
-P_C10 == P_C10a_NoListenerLost /\ P_C10b_NoRequestCut /\ P_C10b_OnlyIdleClosed /\ P_C10c_NoAcceptAfterStop
-         /\ P_C10d_OneAck
+P_C10 == P_C10a_NoListenerLost /\ P_C10b_NoRequestCut /\ P_C10b_OnlyIdleClosed /\ P_C10b_NoShortResponse
+         /\ P_C10c_NoAcceptAfterStop /\ P_C10d_OneAck
 =============================================================================
